@@ -156,6 +156,7 @@ def _execute_concurrent(sc, tape, keep_events):
     orig_randbelow = ent.randbelow
 
     last_draw = {}
+    ndraws = {}
 
     def randbelow(bound):
         tid = holder["sched"].me()
@@ -164,6 +165,7 @@ def _execute_concurrent(sc, tape, keep_events):
             ent.tape, ent.pos = [tp.pop(0)], 0
         v = orig_randbelow(bound)
         last_draw[tid] = v
+        ndraws[tid] = ndraws.get(tid, 0) + 1
         return v
 
     ent.randbelow = randbelow
@@ -172,11 +174,14 @@ def _execute_concurrent(sc, tape, keep_events):
         def body():
             for oi, op in enumerate(ops):
                 per_thread[holder["sched"].me()] = list(op["tape"])
+                n0 = ndraws.get(holder["sched"].me(), 0)
                 try:
                     key = keys.key()
+                    drew = ndraws.get(holder["sched"].me(), 0) > n0
                     pub = keys.pub(bytes(key), compressed=op["compressed"]) if op.get("pub", True) else b""
                     results[(ti, oi)] = ("ok", bytes(key), bytes(pub))
-                    draws_of[(ti, oi)] = last_draw.get(holder["sched"].me())
+                    # None: this call read nothing from the source (an implementation that buffers)
+                    draws_of[(ti, oi)] = last_draw.get(holder["sched"].me()) if drew else None
                 except Exception as e:  # noqa
                     results[(ti, oi)] = ("raised", f"{type(e).__name__}: {e}"[:200], b"")
 
@@ -235,6 +240,12 @@ def _execute_concurrent(sc, tape, keep_events):
     for kb in sorted(by_key):
         ops_ = by_key[kb]
         ds = {draws_of.get(o) for o in ops_}
+        if None in ds and ent.history:
+            # buffering implementation: which bytes fed which key is not observable, so any
+            # repetition in the source's output exempts the run
+            probes.hit("buffered-entropy")
+            if len(set(ent.history)) < len(ent.history):
+                continue
         if len(ops_) > 1 and len(ds) > 1:
             viols.append(Violation("key-collision", f"ops={ops_}", f"callers that drew {sorted(hex(d) for d in ds if d is not None)} were handed the same key {kb.hex()} (concurrent callers)", {"via": "concurrent"}))
     seen = set()
@@ -277,6 +288,7 @@ def execute(scenario, tape=None, keep_events=False):
     ent.faults = faults
     viols = []
     made = []  # (op, accepted draw, key int)
+    buffered = False
     with EntropySeam(ent, [ecmath, keys, utils, bmain]):
         for i, op in enumerate(sc["ops"]):
             where = f"op={i} via={op['via']}"
@@ -313,7 +325,11 @@ def execute(scenario, tape=None, keep_events=False):
                 continue
             drawn = ent.history[n_hist:]
             if ent.op_draws == 0:
-                raise HarnessError("key generation consumed no simulated entropy: the random source by-passes the seam")
+                if not ent.draws:
+                    raise HarnessError("key generation consumed no simulated entropy: the random source by-passes the seam")
+                # entropy was read earlier in this run but not by this call: a buffering implementation
+                probes.hit("buffered-entropy")
+                buffered = True
             log.add(i, "op", "key", key.hex() if isinstance(key, (bytes, bytearray)) else repr(key))
             if not isinstance(key, (bytes, bytearray)) or len(key) != 32:
                 viols.append(Violation("key-format", where, f"{key!r}", feats))
@@ -448,6 +464,8 @@ def execute(scenario, tape=None, keep_events=False):
         by_key.setdefault(k, []).append((i, acc))
     for k in sorted(by_key):
         accs = {a for _, a in by_key[k]}
+        if (buffered or None in accs) and len(set(ent.history)) < len(ent.history):
+            continue  # buffering implementation and the source repeated itself somewhere in the run
         if len(accs) > 1:
             viols.append(Violation("key-collision", f"ops={[i for i, _ in by_key[k]]}", f"distinct draws {[hex(a) for a in sorted(accs)]} gave the same key {k:#x}"))
         elif len(by_key[k]) > 1:
